@@ -435,3 +435,71 @@ def c10_g(ctx):
     ctx.check(ok, init, 'default threshold', 'minimum of the surrogate mean when none is given',
               'the default threshold is not the minimum value found by minimize(predict_mean, '
               'bounds)', fn=init, node=dflt[0] if dflt else init.node)
+
+
+def _masked_store_value(ctx, f, arr_kind):
+    """The value stored through the bounds mask (`out[logi] = v` / `out[logi, :] = v`)."""
+    ex = ctx.ex(f)
+    out = []
+    for n in own_nodes(f.node):
+        if isinstance(n, ast.Assign) and isinstance(n.targets[0], ast.Subscript) and \
+                isinstance(n.targets[0].value, ast.Name):
+            out.append(n)
+    return out
+
+
+@obligation('C10-h', 'T14', 'the likelihood gradient is the symbolic derivative of the log '
+            'likelihood', floor=1,
+            necessary='a gradient that is not the derivative of log Phi((h - mean)/sd) drives '
+                      'NUTS and the MAP optimiser with a field inconsistent with the density')
+def c10_h(ctx):
+    from .. import symdiff as sd
+    from ..ratfun import Rat, Unsupported
+    sd.selfcheck()
+    ctx.fact('d/dx log Phi(z) = phi(z)/Phi(z) dz/dx; d sqrt(v) = dv / (2 sqrt(v)); equality of '
+             'rational functions modulo sqrt relations is decided by coefficient comparison')
+    bp, lp, glp, lik, glik = lik_fns(ctx)
+    alg = sd.Algebra()
+    mean = alg.base('mean', 'grad_mean')
+    var = alg.base('var', 'grad_var')
+    thr = alg.const('threshold')
+
+    def leaf(t):
+        if t == pattern_term('self.threshold'):
+            return thr
+        if t[0] == 'item' and t[1][0] == 'call' and t[1][1][0] == 'attr' and \
+                t[1][1][1] == pattern_term('self.model'):
+            meth = t[1][1][2]
+            if meth == 'predict' and not any(k == 'noiseless' for (k, v) in t[1][3]):
+                return (mean, var)[t[2]] if t[2] in (0, 1) else None
+            if meth == 'predictive_gradients':
+                return (Rat.sym('grad_mean'), Rat.sym('grad_var'))[t[2]] if t[2] in (0, 1) \
+                    else None
+        return None
+    exl, exg = ctx.ex(lik), ctx.ex(glik)
+    fs = [n for n in _masked_store_value(ctx, lik, 'logpdf')
+          if contains(exl.term(n.value), 'ss.norm.logcdf(*_)')]
+    gs = [n for n in _masked_store_value(ctx, glik, 'grad')
+          if contains(exg.term(n.value), 'self.model.predictive_gradients(_)')]
+    if len(fs) != 1 or len(gs) != 1:
+        ctx.undecided('expected one masked store of the log likelihood and one of its gradient, '
+                      'found {} and {}'.format(len(fs), len(gs)))
+    try:
+        F = sd.convert(exl.term(fs[0].value), alg, leaf)
+        dF = alg.D(F)
+    except sd.Clipped as e:
+        ctx.undecided('log likelihood contains a clipping operator: {}'.format(e))
+    except Unsupported as e:
+        ctx.undecided('log likelihood outside the differentiable fragment: {}'.format(e))
+    try:
+        G = sd.convert(exg.term(gs[0].value), alg, leaf)
+        ok = alg.same(G, dF)
+        why = 'gradient formula {} is not d/dx of {}'.format(src(gs[0].value), src(fs[0].value))
+    except sd.Clipped as e:
+        ok = False
+        why = 'the gradient formula contains the clipping operator {} which the log density ' \
+              'does not have: the two disagree wherever the clip is active'.format(e)
+    except Unsupported as e:
+        ctx.undecided('gradient outside the differentiable fragment: {}'.format(e))
+    ctx.check(ok, glik, 'gradient = d/dx log Phi((threshold - mean) / sd)',
+              'factor * pdf / cdf equals the chain-rule derivative', why, fn=glik, node=gs[0])
